@@ -73,7 +73,7 @@ func init() {
 		defer done()
 		_, fams := lexFamilies(tier)
 		var mu sync.Mutex
-		for _, fam := range []string{"L1", "L2", "L5", "L6"} {
+		for _, fam := range []string{"L1", "L2", "L5", "L6", "L8", "L9"} {
 			gs := fams[fam]
 			texts := make([]string, len(gs))
 			for i, g := range gs {
